@@ -31,15 +31,25 @@ def model_summary(shx):
         atoms.append((a['name'].upper(), a['sfac'], tuple(round(x, 9) for x in a['xyz']), round(a['sof'], 9), tuple(round(u, 9) for u in a['uvals']),
                       a['part'], a['afix'], a['resinum'], a['resiclass'].upper(), a['qpeak']))
     instr = []
+    rawbuf = []
+
+    def flush():
+        # instructions kept as text: their physical lines (first line and continuation lines) are joined by the independent lexer
+        if rawbuf:
+            for l in rf.independent_lex('\n'.join(rawbuf)):
+                if l['tokens']:
+                    instr.append(('raw', 'FREE' if l['free'] else ' '.join(t.upper() for t in l['tokens'])))
+            del rawbuf[:]
     for cls, toks in im.instr_tokens(shx):
         if cls == 'raw':
-            if toks[0] == ' ':
-                continue        # blank / indented lines are layout, not content
-            instr.append(('raw', ' '.join(toks.split('!')[0].split()).upper() if not toks.upper().startswith(('TITL', 'REM')) else 'FREE'))
-        elif cls == 'atom':
+            rawbuf.append(toks)
+            continue
+        flush()
+        if cls == 'atom':
             instr.append(('atom', toks.upper()))
         else:
             instr.append((cls, tuple(canon_tokens(toks))))
+    flush()
     rest = []
     for r in shx.restraints:
         rest.append((r.name, tuple(x.upper() for x in r.atoms), r.residue_class.upper() if r.residue_class else '', tuple(r.residue_number)))
